@@ -120,12 +120,42 @@ C06Clause(st) ==
   ELSE IF ObsKey(st) # ObsKey(base) THEN "same_across_contexts." \o st.ctx
   ELSE ""
 
+(***************************************************************************)
+(* C18: probes after a failed build / resolution.  allow_config: a         *)
+(* configuration error is still an acceptable answer (the fault source may *)
+(* still be present); must_config: the registered set contains a method    *)
+(* that cannot be built, so only a configuration error is acceptable.      *)
+(* alt_methods: the registration that was interrupted may or may not have  *)
+(* taken effect - either complete set is accepted.                         *)
+(* C19: every thread's call and every later probe must be what the call    *)
+(* returns alone; no configuration, internal or spurious error.            *)
+(***************************************************************************)
+PlainClause(st) ==
+  LET c2 == C02Clause(st) IN IF c2 # "" THEN c2 ELSE C07Clause(st)
+
+C18Clause(st) ==
+  IF st.obs.kind = "config" THEN
+       IF st.allow_config THEN "" ELSE "works_after_removal.got_config"
+  ELSE IF st.must_config THEN "probe_config_or_complete.ran_with_unbuildable_method_registered"
+  ELSE LET c == PlainClause(st) IN
+       IF c = "" THEN ""
+       ELSE IF "alt_methods" \in DOMAIN st /\ PlainClause([st EXCEPT !.methods = st.alt_methods]) = "" THEN ""
+       ELSE (IF st.allow_config THEN "probe_config_or_complete." ELSE "works_after_removal.") \o c
+
+C19Clause(st) ==
+  LET c == PlainClause(st) IN
+  IF c = "" THEN "" ELSE (IF st.role = "thread" THEN "each_as_alone." ELSE "final_state_correct.") \o c
+
 StepClause(st) ==
   LET c1 == IF "C01" \in Props THEN C01Clause(st) ELSE ""
       c2 == IF "C02" \in Props THEN C02Clause(st) ELSE ""
       c7 == IF "C07" \in Props THEN C07Clause(st) ELSE ""
       c6 == IF "C06" \in Props THEN C06Clause(st) ELSE ""
-  IN IF c1 # "" THEN "C01:" \o c1
+      c18 == IF "C18" \in Props THEN C18Clause(st) ELSE ""
+      c19 == IF "C19" \in Props THEN C19Clause(st) ELSE ""
+  IN IF c18 # "" THEN "C18:" \o c18
+     ELSE IF c19 # "" THEN "C19:" \o c19
+     ELSE IF c1 # "" THEN "C01:" \o c1
      ELSE IF c2 # "" THEN "C02:" \o c2
      ELSE IF c7 # "" THEN "C07:" \o c7
      ELSE IF c6 # "" THEN "C06:" \o c6
